@@ -311,11 +311,16 @@ def seq_attr(lib, p11drv, seed, idx):
         p.op('logout %s' % s)
         # as user: CKA_TRUSTED cannot be switched on
         p.op('login %s 1 35363738' % s)
-        if hpub and p.rv('setattr %s %s 0x%x=b:1' % (s, hpub, A['TRUSTED'])) == 0 and bool_attr(p, s, hpub, A['TRUSTED']):
-            c.bad('CKA_TRUSTED was set true by the normal user')
-        r = p.op('create %s 0=u:4 0x100=u:0x1f 0x11=x:%s 1=b:0 2=b:0 0x%x=b:1' % (s, wkey.hex(), A['TRUSTED']))
+        tv = rng.choice(['b:1', 'b:1', 'x:02', 'x:80', 'x:ff'])        # any non-zero CK_BBOOL is true
+        if hpub and p.rv('setattr %s %s 0x%x=%s' % (s, hpub, A['TRUSTED'], tv)) == 0 and bool_attr(p, s, hpub, A['TRUSTED']):
+            c.bad('CKA_TRUSTED was set true by the normal user (value %s)' % tv)
+        for tmpl in ('0=u:4 0x100=u:0x1f 0x11=x:%s 1=b:0 2=b:0' % wkey.hex(), '0=u:2 0x100=u:0 0x120=x:%s 0x122=x:010001 1=b:0 2=b:0' % ('c5' * 64), '0=u:1 0x80=u:0 0x101=x:3000 0x11=x:3082 1=b:0 2=b:0'):
+            r = p.op('create %s %s 0x%x=%s' % (s, tmpl, A['TRUSTED'], tv))
+            if r.get('rv') == '0x0' and bool_attr(p, s, r['h'], A['TRUSTED']):
+                c.bad('an object was created with CKA_TRUSTED true outside an SO session (value %s)' % tv)
+        r = p.op('genkey %s 0x1080 0=u:4 0x100=u:0x1f 0x161=u:16 1=b:0 2=b:0 0x%x=%s' % (s, A['TRUSTED'], tv))
         if r.get('rv') == '0x0' and bool_attr(p, s, r['h'], A['TRUSTED']):
-            c.bad('an object was created with CKA_TRUSTED true outside an SO session')
+            c.bad('C_GenerateKey produced a key with CKA_TRUSTED true outside an SO session (value %s)' % tv)
         p.op('findinit %s 3=x:' % s)
         fr = p.op('findseq %s 50' % s)
         p.op('findfinal %s' % s)
